@@ -1,7 +1,297 @@
 package main
 
-import "github.com/dominant-strategies/go-quai/verifshim/vx"
+// C06 part "trim-schedules": Finalize trims expired outputs with one goroutine per denomination,
+// all appending to shared slices under one mutex. In a second binary (vqs) the file's "sync" import
+// is the scheduler shim, so every Lock/Unlock/Done/Wait is a decision point. On a block at whose
+// height three denominations with two trimmable outputs each expire, ALL interleavings with at
+// most B preemptions (B = 0,1,2, then unbounded up to a cap) of the real Process call are
+// executed; multiset hash, set size, every other output of Process and the SET of database keys
+// deleted by trimming must be identical in every schedule, and no schedule may deadlock.
 
-// c06Sched: controlled-scheduler exploration of Finalize's trimming goroutines (filled in by the
-// vsched engine; until then the part is reported as not built).
-func c06Sched(c *vx.Ctx) {}
+import (
+	"encoding/json"
+	"fmt"
+	"os"
+	"os/exec"
+	"sort"
+	"strings"
+
+	"github.com/dominant-strategies/go-quai/core"
+	"github.com/dominant-strategies/go-quai/core/types"
+	"github.com/dominant-strategies/go-quai/verifshim/vsync"
+	"github.com/dominant-strategies/go-quai/verifshim/vx"
+)
+
+func init() {
+	register(vx.CheckSpec{ID: "c06sched", Shards: 1, Run: runC06SchedChild})
+}
+
+type c06SchedOut struct {
+	Executions int64    `json:"executions"`
+	Points     int64    `json:"points"`
+	MaxThreads int      `json:"max_threads"`
+	Bound      int      `json:"preemption_bound_completed"`
+	Unbounded  bool     `json:"unbounded_completed"`
+	Outcomes   []string `json:"distinct_outcomes"`
+	Violation  string   `json:"violation,omitempty"`
+	Schedule   []int    `json:"schedule,omitempty"`
+	Harness    string   `json:"harness,omitempty"`
+	Trimmed    int      `json:"trimmed_outputs"`
+	Sample     []string `json:"sample_schedule"`
+}
+
+// c06SchedScenario: prefix + blocks creating two lock-free outputs of denominations 3, 2 and 1 at
+// heights h-5, h-4, h-3, so that the block at height h trims all six with three goroutines.
+func c06SchedScenario() (*scen, *types.WorkObject, error) {
+	s, err := newScen(3, false, nil)
+	if err != nil {
+		return nil, nil, err
+	}
+	if err := s.runWord(scenPrefixes["C14"] + "zzz"); err != nil {
+		return nil, nil, err
+	}
+	split := func(d uint8, nth int, out uint8) error {
+		utxos, _ := core.VScanUtxos(s.n.DB[2])
+		for _, u := range utxos {
+			if string(u.Entry.Address) != string(s.q[0].Addr.Bytes()) || u.Entry.Denomination != d {
+				continue
+			}
+			if nth > 0 {
+				nth--
+				continue
+			}
+			tx := core.VQiTx(s.n.ChainID(), core.VZoneLoc, []core.VQiIn{{Hash: u.Hash, Index: u.Index, Key: s.q[0]}},
+				[]core.VQiOut{{Denom: out, Addr: s.q[1].Addr}, {Denom: out, Addr: s.q[2].Addr}}, nil, s.q[0])
+			if errs := s.n.AddTxs(tx); errs[0] != nil {
+				return fmt.Errorf("pool refused split d%d->2xd%d: %v", d, out, errs[0])
+			}
+			blk, err := s.mine(core.VBuildOpts{Order: 2, Fill: true})
+			if err != nil {
+				return err
+			}
+			if len(blk.Transactions()) == 0 {
+				return fmt.Errorf("split d%d not included", d)
+			}
+			return nil
+		}
+		return fmt.Errorf("no denomination-%d output", d)
+	}
+	if err := split(6, 0, 3); err != nil { // height h-5: two d3 outputs (trim depth 5)
+		return nil, nil, err
+	}
+	if err := split(6, 0, 2); err != nil { // h-4: two d2 (depth 4)
+		return nil, nil, err
+	}
+	if err := split(4, 0, 1); err != nil { // h-3: two d1 (depth 3)
+		return nil, nil, err
+	}
+	if err := s.runWord("zz"); err != nil {
+		return nil, nil, err
+	}
+	blk, err := s.n.Build(core.VBuildOpts{Order: 2, Fill: true})
+	return s, blk, err
+}
+
+func runC06SchedChild(c *vx.Ctx) {
+	core.VScaleParams(core.VR1)
+	// only the three denominations that have outputs to trim in this scenario get a goroutine
+	// (idle goroutines would only multiply the schedules by their commuting Done operations)
+	types.TrimDepths = map[uint8]uint64{1: 3, 2: 4, 3: 5}
+	out := c06SchedOut{}
+	defer func() {
+		raw, _ := json.Marshal(out)
+		fmt.Println("C06SCHED-RESULT " + string(raw))
+		p := c.Part("child")
+		p.States, p.Transitions = 1, out.Executions
+		p.Outcome("x")
+		p.Outcome("y")
+	}()
+	s, blk, err := c06SchedScenario()
+	if err != nil {
+		out.Harness = err.Error()
+		return
+	}
+	defer s.close()
+	runOne := func(prefix []int) (*vsync.Sched, string) {
+		var fp string
+		var perr error
+		sc := vsync.Run(prefix, func() {
+			fp, perr = s.n.VProcessFingerprintWithDeletes(blk)
+		})
+		if perr != nil {
+			return sc, "ERROR:" + perr.Error()
+		}
+		return sc, fp
+	}
+	var ref string
+	outcomes := map[string]bool{}
+	capExec := int64(20000)
+	if c.Thorough() {
+		capExec = 400000
+	}
+	var explore func(prefix []int, bound int) bool
+	explore = func(prefix []int, bound int) bool {
+		if out.Executions >= capExec {
+			return false
+		}
+		sc, fp := runOne(prefix)
+		out.Executions++
+		out.Points += int64(len(sc.Points))
+		if sc.Diverged != "" {
+			out.Harness = "replay divergence: " + sc.Diverged
+			return false
+		}
+		nthreads := 0
+		for _, pt := range sc.Points {
+			for _, id := range pt.Enabled {
+				if id+1 > nthreads {
+					nthreads = id + 1
+				}
+			}
+		}
+		if nthreads > out.MaxThreads {
+			out.MaxThreads = nthreads
+		}
+		choices := make([]int, len(sc.Points))
+		for i, pt := range sc.Points {
+			choices[i] = pt.Chosen
+		}
+		if sc.Deadlock {
+			out.Violation, out.Schedule = "deadlock", choices
+			return false
+		}
+		if ref == "" {
+			ref = fp
+			out.Trimmed = strings.Count(fp, "del:")
+			for _, pt := range sc.Points {
+				out.Sample = append(out.Sample, pt.Ops[pt.Chosen])
+			}
+		}
+		outcomes[fp] = true
+		if fp != ref {
+			out.Violation = fmt.Sprintf("schedule-dependent result:\n default schedule: %s\n this schedule:    %s", ref, fp)
+			out.Schedule = choices
+			return false
+		}
+		// iterate alternatives beyond the prefix within the preemption bound
+		pre := 0
+		for i := 0; i < len(sc.Points); i++ {
+			pt := sc.Points[i]
+			if i >= len(prefix) {
+				for alt := 1; alt < len(pt.Enabled); alt++ {
+					cost := pre
+					if pt.RunningEnabled {
+						cost++
+					}
+					if bound >= 0 && cost > bound {
+						continue
+					}
+					np := append(append([]int{}, choices[:i]...), alt)
+					if !explore(np, bound) {
+						return false
+					}
+				}
+			}
+			if pt.Chosen != 0 && pt.RunningEnabled {
+				pre++
+			}
+		}
+		return true
+	}
+	perms := []int{0, 1}
+	if c.Thorough() {
+		perms = []int{0, 1, 2, 3, 4, 5}
+	}
+	okAll := true
+	for b := 0; b <= 2 && okAll; b++ {
+		for _, pm := range perms {
+			vsync.SetPerm(pm)
+			if !explore(nil, b) {
+				okAll = false
+				break
+			}
+		}
+		if okAll {
+			out.Bound = b
+		}
+	}
+	vsync.SetPerm(0)
+	if out.Violation == "" && out.Harness == "" && out.Executions < capExec {
+		if explore(nil, -1) && out.Executions < capExec {
+			out.Unbounded = true
+		}
+	}
+	for k := range outcomes {
+		if len(k) > 160 {
+			k = k[:160]
+		}
+		out.Outcomes = append(out.Outcomes, k)
+	}
+	sort.Strings(out.Outcomes)
+}
+
+// c06Sched (parent side, in the plain vq binary): run the scheduler build as a sub-process.
+func c06Sched(c *vx.Ctx) {
+	if !c.Wants("trim-schedules") || c.Shard != 0 {
+		return
+	}
+	p := c.Part("trim-schedules")
+	bin := os.Getenv("VQ_BIN_vqs")
+	if bin == "" {
+		p.Incomplete("scheduler build (vqs) not available: part skipped")
+		return
+	}
+	cmd := exec.Command(bin, "c06sched", "--tier", c.Tier)
+	cmd.Env = append(os.Environ(), "VX_SHARD=", "VERIF_OUT="+os.TempDir()+"/vq-c06sched")
+	raw, err := cmd.CombinedOutput()
+	var res c06SchedOut
+	found := false
+	for _, l := range strings.Split(string(raw), "\n") {
+		if strings.HasPrefix(l, "C06SCHED-RESULT ") {
+			if json.Unmarshal([]byte(strings.TrimPrefix(l, "C06SCHED-RESULT ")), &res) == nil {
+				found = true
+			}
+		}
+	}
+	os.RemoveAll(os.TempDir() + "/vq-c06sched")
+	if !found {
+		tail := string(raw)
+		if len(tail) > 1500 {
+			tail = tail[len(tail)-1500:]
+		}
+		c.HarnessError(fmt.Sprintf("scheduler sub-process gave no result (%v): %s", err, tail))
+		return
+	}
+	if res.Harness != "" {
+		c.HarnessError("scheduler sub-process: " + res.Harness)
+		return
+	}
+	p.States = int64(len(res.Outcomes))
+	if p.States == 0 {
+		p.States = 1
+	}
+	p.Transitions = res.Points
+	p.Traces = res.Executions
+	p.Evals = res.Executions
+	p.Bound("preemption_bound_completed", res.Bound)
+	p.Bound("unbounded_completed", res.Unbounded)
+	p.Bound("threads", res.MaxThreads)
+	p.Bound("trimmed_outputs_in_scenario", res.Trimmed)
+	p.Sample(map[string]any{"default_schedule": res.Sample})
+	p.Outcome(fmt.Sprintf("schedules=%d", res.Executions))
+	p.Outcome(fmt.Sprintf("distinct-results=%d", len(res.Outcomes)))
+	if !res.Unbounded {
+		p.Incomplete(fmt.Sprintf("unbounded exploration capped; complete up to %d preemptions", res.Bound))
+	}
+	if res.MaxThreads < 4 || res.Trimmed < 6 {
+		c.HarnessError(fmt.Sprintf("scheduler scenario is vacuous: %d threads, %d trimmed outputs", res.MaxThreads, res.Trimmed))
+		return
+	}
+	if res.Violation != "" {
+		key := "trim-schedules:schedule-dependent"
+		if res.Violation == "deadlock" {
+			key = "trim-schedules:deadlock"
+		}
+		c.Violate("trim-schedules", key, res.Violation, map[string]any{"schedule": res.Schedule})
+	}
+}
